@@ -367,7 +367,7 @@ def rule_poll(ctx):
 
 
 # a raising callback of another waiter/listener must not keep the event from this waiter; filters are the registry's
-IMPORTS = [('C16', 'C16.CONTAIN'), ('C16', 'C16.FILTER'), ('C16', 'C16.RM')]
+IMPORTS = [('C16', 'C16.CONTAIN'), ('C16', 'C16.FILTER'), ('C16', 'C16.RM'), ('C16', 'C16.DURING')]
 
 RULES = [
     ("C17.COND", rule_cond, "released exactly when the condition holds (3 kinds x 3 event kinds x equal/different), returning that event"),
